@@ -80,24 +80,6 @@ func NewReadOnlyFS(bundle *core.Bundle, opts ...Option) (*ReadOnlyFS, error) {
 		fs.m = fs.EnsureMetrics("fuse", &M{}).(*M)
 	}
 
-	if fs.streamed {
-		// prepare the content-addressable backend for this bundle
-		cafs, err := cafs.New(
-			cafs.LeafSize(bundle.BundleDescriptor.LeafSize),
-			cafs.LeafTruncation(bundle.BundleDescriptor.Version < 1),
-			cafs.Backend(bundle.BlobStore()),
-			cafs.Logger(fs.l),
-			cafs.CacheSize(fs.lruSize),
-			cafs.Prefetch(fs.prefetch),
-			cafs.VerifyHash(fs.withVerifyHash),
-			cafs.WithMetrics(fs.MetricsEnabled()),
-		)
-		if err != nil {
-			return nil, err
-		}
-		fs.cafs = cafs
-	}
-
 	fs.l = fs.l.With(zap.String("repo", bundle.RepoID), zap.String("bundle", bundle.BundleID))
 
 	if fs.streamed {
@@ -124,6 +106,24 @@ func NewReadOnlyFS(bundle *core.Bundle, opts ...Option) (*ReadOnlyFS, error) {
 	// with many files (e.g. thousands)
 	//
 	// TODO: reduce memory footprint
+	if fs.streamed {
+		// prepare the content-addressable backend for this bundle, now that its descriptor tells the leaf size of its blobs
+		cafs, err := cafs.New(
+			cafs.LeafSize(bundle.BundleDescriptor.LeafSize),
+			cafs.LeafTruncation(bundle.BundleDescriptor.Version < 1),
+			cafs.Backend(bundle.BlobStore()),
+			cafs.Logger(fs.l),
+			cafs.CacheSize(fs.lruSize),
+			cafs.Prefetch(fs.prefetch),
+			cafs.VerifyHash(fs.withVerifyHash),
+			cafs.WithMetrics(fs.MetricsEnabled()),
+		)
+		if err != nil {
+			return nil, err
+		}
+		fs.cafs = cafs
+	}
+
 	return fs.populateFS(bundle)
 }
 
